@@ -1,13 +1,53 @@
 (* C07 - Parent-ready is announced exactly for certified, skip-connected parents.
-   PARTIAL: proved for the model - each (s, b) pair becomes ready at most once (the implementation
-   panics on a repeat, the model excludes it), an announced pair is in the query result, a
-   registered waiter is woken by the first ready parent, pruning neither loses nor re-creates a
-   pair at or above the new root.  The equivalence "ready <-> certified and skip-connected"
-   (soundness and completeness w.r.t. the certificate-level specification, for every arrival order)
-   is decided by the oracle c07_step_ok on implementation traces (Oracle/PoolRun.v) and by the
-   model/implementation correspondence; it is not yet a theorem. *)
-From Coq Require Import List NArith Bool.
-From AG Require Import Gen.Params Model.Pool Model.PoolSpec Proofs.TrackerProofs.
+
+   PROVED for the model of ParentReadyTracker (Model/Pool.v, the pt_ functions), for EVERY sequence of the
+   operations the pool issues to it, run from the initial tracker (Model/TrackerSpec.v: pt_run over
+   notar(-fallback) marks, skip marks, finalization events with their implicitly finalized blocks /
+   implicitly skipped slots, pruning, waiter registrations - any order, any repetitions, no bounds), under
+   the single hypothesis that the pruning root never moves backwards (roots_mono; PoolImpl prunes to
+   FinalityTracker::first_unpruned).  The specification is the decidable predicate ready_spec_m over the
+   accumulated marks (marks_of: all blocks ever marked notar-fallback incl. genesis, all slots ever
+   marked skipped - also the marks the tracker ignores below its root -, the current root):
+     ready_spec_m m s p  =  s is a window start, slot(p) < s, p is marked, every slot strictly between is marked skipped.
+   - no panic: no mark / finalization / prune operation of such a run panics (the assert in add_to_ready
+     never fires, the fuel of the propagation loop always suffices); the only panic is a second waiter
+     registered for a slot that still has none ready                 (C07_marks_never_panic, C07_run_without_waits_never_panics)
+   - (1) soundness: every pair in a ready list satisfies the specification, with genuinely marked
+     skips (no "below the root" escape is needed)                                       (C07_ready_sound)
+   - (2) completeness for retained state: an unpruned parent satisfying the specification is in the
+     ready list of every window start, at every point of the run, whichever mark arrived last
+     (C07_ready_complete_retained); together: ready list restricted to unpruned parents = filter spec
+     (C07_ready_list_is_filter_spec), lists are duplicate-free (C07_ready_no_duplicates)
+   - (3) every announced pair is justified, and announced at most once over the whole run
+     (C07_announced_once_and_justified); an announcement is made in the step in which the pair becomes
+     justified, is then in the query and was not before (C07_announcement_is_new_and_queryable); marks never
+     remove a ready parent, and for a certificate mark the newly ready pairs are exactly the announced
+     ones (C07_query_agrees_with_announcements; a finalization announces only the highest window, by design)
+   - (4) waiters: a registered waiter never coexists with a ready parent; over a run the number of wake-ups
+     for s plus a still-registered waiter never exceeds the number of wait calls for s (never woken
+     twice) (C07_waiter_invariant); a wake-up happens exactly in the step that makes the first parent
+     ready, carries that first parent, once (C07_waiter_woken_exactly_by_first_parent); an immediate
+     answer is given iff a parent is ready and is the minimal one (C07_wait_answer)
+   - (5) pruning neither loses nor creates a pair of a retained window and emits nothing
+     (C07_prune_neutral, C07_prune_step)
+   - the two restrictions are necessary: with a root that moves backwards the model (like the
+     implementation's assert) panics (C07_root_regression_refuted); a parent whose mark arrives after
+     its slot was pruned is not reported although the accumulated marks satisfy the specification
+     (C07_pruned_parent_not_reported).
+   - pool link (Proofs/PoolTrackerLink.v): in EVERY pool state reachable by pool_step from pool_init (votes,
+     certificates, blocks, standstill, waits, in any order) the tracker component is pt_run of some
+     operation list with roots_mono = true (FinalityTracker::first_unpruned never decreases and every
+     prune uses it), so (1), (2), no-duplicates and the waiter invariant hold of the pool's
+     parents_ready query w.r.t. the marks the pool issued (C07_pool_feeds_tracker_monotone,
+     C07_pool_tracker_exact), and no tracker call of the pool panics (C07_pool_tracker_marks_never_panic).
+   ORACLE-ONLY (not theorems): WHICH marks the pool issues for which certificates / parent edges (the
+   link from certificates to marks: ready_spec over certificates, finals_star, implicitly skipped slots
+   computed by the finality tracker) and that the pool forwards the tracker's announcements as
+   ParentReady events unchanged - decided by c07_step_ok on implementation traces (Oracle/PoolRun.v)
+   and by the model/implementation correspondence. *)
+From Coq Require Import List NArith Bool Permutation.
+From AG Require Import Gen.Params Model.Pool Model.PoolSpec Model.TrackerSpec Proofs.TrackerProofs Proofs.ParentReadyProofs
+                       Proofs.PoolTrackerLink.
 Import ListNotations.
 Open Scope N_scope.
 
@@ -28,6 +68,169 @@ Theorem C07_prune_neutral : forall t r s,
   pt_parents_ready (pt_prune t r) s = if r <=? s then pt_parents_ready t s else [].
 Proof. exact pt_prune_spec. Qed.
 
+(* ---- no panic ---- *)
+Theorem C07_marks_never_panic : forall ops op t ann wk,
+  roots_mono (ops ++ [op]) = true -> pt_run ops = Some (t, ann, wk) -> pt_step t op = None ->
+  exists s, op = TWait s /\ pr_waiting (pt_get t s) = true /\ pt_parents_ready t s = [].
+Proof. exact run_step_total. Qed.
+
+Theorem C07_run_without_waits_never_panics : forall ops,
+  roots_mono ops = true -> (forall s, ~ In (TWait s) ops) -> pt_run ops <> None.
+Proof. exact run_never_panics. Qed.
+
+(* ---- (1) soundness, (2) completeness ---- *)
+Theorem C07_ready_sound : forall ops t ann wk,
+  roots_mono ops = true -> pt_run ops = Some (t, ann, wk) ->
+  forall s p, In p (pt_parents_ready t s) -> ready_spec_m (marks_of ops) s p = true.
+Proof. exact ready_sound. Qed.
+
+Theorem C07_ready_complete_retained : forall ops t ann wk,
+  roots_mono ops = true -> pt_run ops = Some (t, ann, wk) ->
+  forall s p, retained (marks_of ops) (fst p) = true -> ready_spec_m (marks_of ops) s p = true ->
+              In p (pt_parents_ready t s).
+Proof. exact ready_complete. Qed.
+
+Theorem C07_ready_no_duplicates : forall ops t ann wk,
+  roots_mono ops = true -> pt_run ops = Some (t, ann, wk) -> forall s, NoDup (pt_parents_ready t s).
+Proof. exact ready_nodup. Qed.
+
+Theorem C07_ready_list_is_filter_spec : forall ops t ann wk,
+  roots_mono ops = true -> pt_run ops = Some (t, ann, wk) ->
+  forall s, let m := marks_of ops in
+  Permutation (filter (fun p => retained m (fst p)) (pt_parents_ready t s))
+              (filter (fun p => retained m (fst p) && ready_spec_m m s p) (nodup bid_dec (mk_nf m))).
+Proof. exact ready_list_is_filter. Qed.
+
+Theorem C07_tracker_root_is_last_prune : forall ops t ann wk,
+  roots_mono ops = true -> pt_run ops = Some (t, ann, wk) -> pt_root t = mk_root (marks_of ops).
+Proof. exact tracker_root. Qed.
+
+(* ---- (3) announcements ---- *)
+Theorem C07_announced_once_and_justified : forall ops t ann wk,
+  roots_mono ops = true -> pt_run ops = Some (t, ann, wk) ->
+  NoDup ann /\ forall s p, In (s, p) ann -> ready_spec_m (marks_of ops) s p = true.
+Proof. exact announced_once. Qed.
+
+Theorem C07_announcement_is_new_and_queryable : forall ops op t ann wk t' a w,
+  roots_mono (ops ++ [op]) = true -> pt_run ops = Some (t, ann, wk) -> pt_step t op = Some (t', a, w) ->
+  NoDup a /\
+  forall s p, In (s, p) a ->
+    ~ In p (pt_parents_ready t s) /\ In p (pt_parents_ready t' s) /\
+    ready_spec_m (marks_of ops) s p = false /\ ready_spec_m (marks_of (ops ++ [op])) s p = true.
+Proof. exact step_announcements. Qed.
+
+Theorem C07_query_agrees_with_announcements : forall ops op t ann wk t' a w,
+  roots_mono (ops ++ [op]) = true -> pt_run ops = Some (t, ann, wk) -> pt_step t op = Some (t', a, w) ->
+  is_markish op ->
+  forall s, exists l, pt_parents_ready t' s = pt_parents_ready t s ++ l /\
+                      match op with TFinalize _ => True | _ => forall p, In p l <-> In (s, p) a end.
+Proof. exact step_query_agrees. Qed.
+
+(* ---- (4) waiters ---- *)
+Theorem C07_waiter_invariant : forall ops t ann wk,
+  roots_mono ops = true -> pt_run ops = Some (t, ann, wk) ->
+  (forall s, pr_waiting (pt_get t s) = true -> pt_parents_ready t s = []) /\
+  (forall x, (woken_count x wk + b2n (pr_waiting (pt_get t x)) <= wait_count x ops)%nat).
+Proof. exact waiter_invariant. Qed.
+
+Theorem C07_waiter_woken_exactly_by_first_parent : forall ops op t ann wk t' a w,
+  roots_mono (ops ++ [op]) = true -> pt_run ops = Some (t, ann, wk) -> pt_step t op = Some (t', a, w) ->
+  (forall x p, In (EWaiterWoken x p) w ->
+     pr_waiting (pt_get t x) = true /\ pr_waiting (pt_get t' x) = false /\ woken_count x w = 1%nat /\
+     pt_parents_ready t x = [] /\ hd_error (pt_parents_ready t' x) = Some p) /\
+  (is_markish op -> forall x, pr_waiting (pt_get t x) = true -> pt_parents_ready t' x <> [] ->
+     exists p, In (EWaiterWoken x p) w) /\
+  (is_markish op -> forall x, pr_waiting (pt_get t x) = true -> pt_parents_ready t' x = [] ->
+     pr_waiting (pt_get t' x) = true /\ woken_count x w = 0%nat).
+Proof. exact step_waiters. Qed.
+
+Theorem C07_wait_answer : forall ops t ann wk s,
+  roots_mono ops = true -> pt_run ops = Some (t, ann, wk) ->
+  match pt_wait t s with
+  | None => pr_waiting (pt_get t s) = true /\ pt_parents_ready t s = []
+  | Some (t', Some p) => In p (pt_parents_ready t s) /\ p = hd (0, 0) (bid_sort (pt_parents_ready t s)) /\
+                         forall x, Permutation (pt_parents_ready t' x) (pt_parents_ready t x)
+  | Some (t', None) => pt_parents_ready t s = [] /\ pr_waiting (pt_get t s) = false /\ pr_waiting (pt_get t' s) = true /\
+                       forall x, Permutation (pt_parents_ready t' x) (pt_parents_ready t x)
+  end.
+Proof. exact wait_answer. Qed.
+
+(* ---- (5) pruning ---- *)
+Theorem C07_prune_step : forall t r,
+  pt_step t (TPrune r) = Some (pt_prune t r, [], []) /\
+  forall s, pt_parents_ready (pt_prune t r) s = if r <=? s then pt_parents_ready t s else [].
+Proof. exact step_prune. Qed.
+
+(* ---- the pool issues exactly such runs ---- *)
+Theorem C07_pool_feeds_tracker_monotone : forall e ops,
+  exists tops, roots_mono tops = true /\
+               (exists ann wk, pt_run tops = Some (p_prt (pool_run_ops e ops), ann, wk)) /\
+               mk_root (marks_of tops) <= ft_first (p_ft (pool_run_ops e ops)).
+Proof. exact pool_feeds_tracker. Qed.
+
+Theorem C07_pool_tracker_exact : forall e ops,
+  let p := pool_run_ops e ops in
+  exists tops, roots_mono tops = true /\ pt_root (p_prt p) = mk_root (marks_of tops) /\
+    (forall s b, In b (pt_parents_ready (p_prt p) s) -> ready_spec_m (marks_of tops) s b = true) /\
+    (forall s b, retained (marks_of tops) (fst b) = true -> ready_spec_m (marks_of tops) s b = true ->
+                 In b (pt_parents_ready (p_prt p) s)) /\
+    (forall s, NoDup (pt_parents_ready (p_prt p) s)) /\
+    (forall s, pr_waiting (pt_get (p_prt p) s) = true -> pt_parents_ready (p_prt p) s = []).
+Proof. exact pool_tracker_exact. Qed.
+
+Theorem C07_pool_tracker_marks_never_panic : forall e ops op,
+  let p := pool_run_ops e ops in
+  (forall r, op = TPrune r -> ft_first (p_ft p) <= r) -> (forall s, op <> TWait s) ->
+  pt_step (p_prt p) op <> None.
+Proof. exact pool_tracker_marks_never_panic. Qed.
+
+(* ---- the hypotheses are satisfiable, the restrictions necessary ---- *)
+(* wit_pruned_ops (Proofs/ParentReadyProofs.v) = [TWait 4; TNotarFb (1,7); TSkip 3; TSkip 2; TSkip 1;
+   TFinalize {final (5,9); implicitly final [(4,8)]; implicitly skipped [6;7]}; TPrune 5; TSkip 5; TWait 8;
+   TNotarFb (2,3); TSkip 4] *)
+Example C07_nonvacuous :
+  roots_mono wit_pruned_ops = true /\
+  match pt_run wit_pruned_ops with
+  | Some (t, ann, wk) =>
+    ann = [(4, (1, 7)); (4, (0, 0)); (8, (5, 9))] /\ wk = [EWaiterWoken 4 (1, 7)] /\
+    pt_parents_ready t 8 = [(5, 9)] /\ pt_root t = 5
+  | None => False
+  end.
+Proof. vm_compute. repeat split; reflexivity. Qed.
+
+(* block (4,8) is marked and skip-connected to window start 8 in the accumulated marks, but its slot was
+   pruned before ... the tracker does not report it: completeness holds for unpruned parents only *)
+Theorem C07_pruned_parent_not_reported : exists ops t ann wk p,
+  roots_mono ops = true /\ pt_run ops = Some (t, ann, wk) /\
+  ready_spec_m (marks_of ops) 8 p = true /\ retained (marks_of ops) (fst p) = false /\
+  ~ In p (pt_parents_ready t 8).
+Proof. exact pruned_parent_witness. Qed.
+
+(* a root that moves backwards (never issued by the pool) makes a mark operation panic *)
+Theorem C07_root_regression_refuted : exists ops,
+  (forall s, ~ In (TWait s) ops) /\ roots_mono ops = false /\ pt_run ops = None.
+Proof. exact root_regression_witness. Qed.
+
 Print Assumptions C07_pair_ready_once_and_queryable.
 Print Assumptions C07_waiter_woken_by_first_parent.
 Print Assumptions C07_prune_neutral.
+Print Assumptions C07_marks_never_panic.
+Print Assumptions C07_run_without_waits_never_panics.
+Print Assumptions C07_ready_sound.
+Print Assumptions C07_ready_complete_retained.
+Print Assumptions C07_ready_no_duplicates.
+Print Assumptions C07_ready_list_is_filter_spec.
+Print Assumptions C07_tracker_root_is_last_prune.
+Print Assumptions C07_announced_once_and_justified.
+Print Assumptions C07_announcement_is_new_and_queryable.
+Print Assumptions C07_query_agrees_with_announcements.
+Print Assumptions C07_waiter_invariant.
+Print Assumptions C07_waiter_woken_exactly_by_first_parent.
+Print Assumptions C07_wait_answer.
+Print Assumptions C07_prune_step.
+Print Assumptions C07_pool_feeds_tracker_monotone.
+Print Assumptions C07_pool_tracker_exact.
+Print Assumptions C07_pool_tracker_marks_never_panic.
+Print Assumptions C07_nonvacuous.
+Print Assumptions C07_pruned_parent_not_reported.
+Print Assumptions C07_root_regression_refuted.
